@@ -26,7 +26,7 @@ demo=$(ls $src/*_test.go | head -1)
 pkgline=$(grep -m1 '^package ' $demo)
 cp $demo ecs/zz_demo_test.go
 tests=$(grep -o '^func Test[A-Za-z0-9_]*' ecs/zz_demo_test.go | sed 's/func //' | paste -sd'|')
-race=""; grep -qi "race" $src/notes.md 2>/dev/null && race="-race"
+race=""; if [ "${RACE:-}" = 1 ]; then race="-race"; export CGO_ENABLED=1; fi
 go test -vet=off -count=1 $race -run "^($tests)\$" ./ecs/ >/tmp/ev/$id.with.log 2>&1 && with=pass || with=fail
 git apply -R $src/patch.diff
 go test -vet=off -count=1 $race -run "^($tests)\$" ./ecs/ >/tmp/ev/$id.without.log 2>&1 && without=pass || without=fail
